@@ -912,8 +912,16 @@ Proof. intros NE SK Hv A B C. rewrite strip_kv by assumption. now apply not_cat_
 Lemma meta_lines_not_cat m : wf_fields m -> Forall (fun l => not_cat_line (strip l)) (meta_lines m).
 Proof.
   intros (H1 & H2 & H3 & H4 & H5 & H6 & H7 & H8 & H9). unfold meta_lines.
-  repeat constructor; apply kv_not_cat; try reflexivity; try discriminate;
-    first [apply H1|apply H2|apply H3|apply H4|apply H5|apply H6|apply H7|apply H8|apply H9].
+  apply Forall_cons; [apply kv_not_cat; [discriminate|reflexivity|apply H1|reflexivity|reflexivity|reflexivity]|].
+  apply Forall_cons; [apply kv_not_cat; [discriminate|reflexivity|apply H2|reflexivity|reflexivity|reflexivity]|].
+  apply Forall_cons; [apply kv_not_cat; [discriminate|reflexivity|apply H3|reflexivity|reflexivity|reflexivity]|].
+  apply Forall_cons; [apply kv_not_cat; [discriminate|reflexivity|apply H4|reflexivity|reflexivity|reflexivity]|].
+  apply Forall_cons; [apply kv_not_cat; [discriminate|reflexivity|apply H5|reflexivity|reflexivity|reflexivity]|].
+  apply Forall_cons; [apply kv_not_cat; [discriminate|reflexivity|apply H6|reflexivity|reflexivity|reflexivity]|].
+  apply Forall_cons; [apply kv_not_cat; [discriminate|reflexivity|apply H7|reflexivity|reflexivity|reflexivity]|].
+  apply Forall_cons; [apply kv_not_cat; [discriminate|reflexivity|apply H8|reflexivity|reflexivity|reflexivity]|].
+  apply Forall_cons; [apply kv_not_cat; [discriminate|reflexivity|apply H9|reflexivity|reflexivity|reflexivity]|].
+  apply Forall_nil.
 Qed.
 
 Lemma name_line_not_cat a nm : wf_value nm -> not_cat_line (strip (name_line alt_name_prefix a nm)).
@@ -1345,3 +1353,80 @@ Qed.
 
 Theorem ballot_line_read_any mu b : ballot_of_line (ballot_line mu b) = Ok (mult_of mu b, b).
 Proof. destruct b as [|c b]; [apply ballot_line_read_zero|apply ballot_line_read]. Qed.
+
+(* ================================================================================================ *)
+(* G. the state machine computes the declarative reading of the pattern                             *)
+(* ================================================================================================ *)
+Definition stops (t : text) : Prop := match t with [] => True | c :: _ => is_run c = false end.
+
+Lemma span_run_spec s : forall d t, span_run s = (d, t) ->
+  s = d ++ t /\ forallb is_run d = true /\ stops t.
+Proof.
+  induction s as [|c r IH]; intros d t H; simpl in H.
+  - injection H as <- <-. repeat split.
+  - destruct (is_run c) eqn:E.
+    + destruct (span_run r) as [d' t'] eqn:E'. injection H as <- <-.
+      destruct (IH d' t' eq_refl) as (A & B & C). subst r. repeat split; [simpl; now rewrite E|exact C].
+    + injection H as <- <-. repeat split. exact E.
+Qed.
+
+Lemma span_run_length s d t : span_run s = (d, t) -> List.length t <= List.length s.
+Proof. intros H. apply span_run_spec in H as (-> & _ & _). rewrite app_length. lia. Qed.
+
+(* a brace group that is not closed right after its run behaves like no brace at all *)
+Lemma brace_fail acc t : stops t -> (match t with 125%N :: _ => False | _ => True end) ->
+  tok_go true acc t = tok_go false acc t.
+Proof.
+  intros S NC. destruct t as [|x t']; [reflexivity|]. simpl in S. cbn [tok_go]. rewrite S.
+  destruct (N.eqb_spec x 123); [reflexivity|]. destruct (N.eqb_spec x 125) as [->|]; [now elim NC|reflexivity].
+Qed.
+
+Lemma tokenize_findall_fuel n : forall s, List.length s <= n -> forall f, List.length s < f ->
+  findall_ref f s = tok_go false [] s.
+Proof.
+  induction n as [|n IH]; intros s Hn f Hf.
+  - destruct s; [|simpl in Hn; lia]. destruct f; reflexivity.
+  - destruct f as [|f]; [lia|]. destruct s as [|c r]; [reflexivity|]. simpl in Hn, Hf.
+    cbn [findall_ref]. destruct (N.eqb_spec c 123) as [->|Hc].
+    + (* an opening brace *)
+      destruct (span_run r) as [d t] eqn:E. pose proof (span_run_spec r d t E) as (Er & Rd & St).
+      rewrite tok_go_open. cbn [flush app].
+      assert (Lt : List.length t <= List.length r) by (now apply span_run_length in E).
+      destruct t as [|x t'].
+      * rewrite (IH r) by lia. rewrite Er at 2. rewrite tok_go_run by exact Rd.
+        rewrite Er. rewrite tok_go_run by exact Rd. reflexivity.
+      * destruct (N.eqb_spec x 125) as [->|Hx].
+        -- rewrite Er. rewrite tok_go_run by exact Rd. rewrite tok_go_close.
+           simpl in Lt. rewrite (IH t') by lia. f_equal. f_equal. simpl. rewrite app_nil_r.
+           now rewrite rev_involutive.
+        -- replace (match x :: t' with
+                    | 125%N :: t'0 => (123%N :: d ++ [125%N]) :: findall_ref f t'0
+                    | _ => findall_ref f r end) with (findall_ref f r).
+           2:{ destruct x as [|p]; [reflexivity|].
+               repeat (destruct p as [p|p|]; try reflexivity). now elim Hx. }
+           rewrite (IH r) by lia. rewrite Er. rewrite !tok_go_run by exact Rd.
+           symmetry. apply brace_fail; [exact St|]. destruct x as [|p]; [exact I|].
+           repeat (destruct p as [p|p|]; try exact I). now elim Hx.
+    + destruct (is_run c) eqn:Rc.
+      * (* a run *)
+        change (is_run c) with (is_run c) in Rc.
+        destruct (span_run (c :: r)) as [d t] eqn:E. pose proof (span_run_spec _ d t E) as (Es & Rd & St).
+        assert (Dne : d <> []).
+        { intros ->. simpl in Es. subst t. simpl in St. congruence. }
+        assert (Lt : List.length t < List.length (c :: r)).
+        { rewrite Es, app_length. destruct d; [now elim Dne|simpl; lia]. }
+        simpl in Lt. rewrite Es. rewrite tok_go_run by exact Rd. rewrite app_nil_r.
+        destruct t as [|x t'].
+        -- destruct f; cbn [findall_ref tok_go]; now rewrite flush_rev.
+        -- simpl in St. simpl in Lt. rewrite (IH (x :: t')) by (simpl; lia).
+           cbn [tok_go]. rewrite St. rewrite flush_rev by exact Dne.
+           destruct (N.eqb_spec x 123); [reflexivity|].
+           rewrite andb_false_r. reflexivity.
+      * (* any other character is skipped *)
+        rewrite (IH r) by lia. cbn [tok_go]. rewrite Rc.
+        apply N.eqb_neq in Hc. rewrite Hc. rewrite andb_false_r. reflexivity.
+Qed.
+
+(* tokenize is the declarative reading of re.findall(r"{[\d,]+?}|[\d,]+|{}", s) *)
+Theorem tokenize_findall s : tokenize s = findall s.
+Proof. unfold tokenize, findall. symmetry. apply (tokenize_findall_fuel (List.length s)); lia. Qed.
